@@ -212,6 +212,84 @@ func filterFieldOf(v ssa.Value) string {
 	return ""
 }
 
+// bundleOperand stands for field #field of the struct parameter par (the lookup state handed over as one value).
+// It implements ssa.Value only to serve as a key next to plain parameters.
+type bundleOperand struct {
+	*ssa.Parameter
+	field int
+}
+
+// operandOf: v is a parameter, or a read of a field of a struct parameter (directly or through its spill).
+func operandOf(v ssa.Value) (par *ssa.Parameter, field int, ok bool) {
+	for i := 0; i < 2; i++ {
+		u, isLoad := v.(*ssa.UnOp)
+		if !isLoad || u.Op != token.MUL {
+			break
+		}
+		if fa, isFA := u.X.(*ssa.FieldAddr); isFA {
+			if al, isAl := fa.X.(*ssa.Alloc); isAl {
+				if pv := spilledParam(al); pv != nil {
+					return pv, fa.Field, true
+				}
+			}
+			return nil, 0, false
+		}
+		v = u.X
+	}
+	if f, isF := v.(*ssa.Field); isF {
+		if pv, isP := f.X.(*ssa.Parameter); isP {
+			return pv, f.Field, true
+		}
+		if u, isLoad := f.X.(*ssa.UnOp); isLoad && u.Op == token.MUL {
+			if al, isAl := u.X.(*ssa.Alloc); isAl {
+				if pv := spilledParam(al); pv != nil {
+					return pv, f.Field, true
+				}
+			}
+		}
+	}
+	if pv, isP := v.(*ssa.Parameter); isP {
+		return pv, -1, true
+	}
+	return nil, 0, false
+}
+
+// spilledParam: al is the local a parameter is spilled into (exactly one store, of the parameter, in the entry block).
+func spilledParam(al *ssa.Alloc) *ssa.Parameter {
+	var par *ssa.Parameter
+	n := 0
+	for _, ref := range *al.Referrers() {
+		if st, ok := ref.(*ssa.Store); ok && st.Addr == ssa.Value(al) {
+			n++
+			par, _ = st.Val.(*ssa.Parameter)
+		}
+	}
+	if n != 1 {
+		return nil
+	}
+	return par
+}
+
+func sameOperand(v ssa.Value, key ssa.Value) bool {
+	par, field, ok := operandOf(v)
+	if !ok {
+		return false
+	}
+	if bo, isB := key.(bundleOperand); isB {
+		return par == bo.Parameter && field == bo.field
+	}
+	return field == -1 && ssa.Value(par) == key
+}
+
+func roleOf(role map[ssa.Value]string, v ssa.Value) string {
+	for k, ro := range role {
+		if sameOperand(v, k) {
+			return ro
+		}
+	}
+	return ""
+}
+
 func ruleAdmit(p *Program, r *Result) {
 	src := filterSourceFields(p)
 	// A1: the lookup goroutine
@@ -241,10 +319,31 @@ func ruleAdmit(p *Program, r *Result) {
 					}
 				}
 				// which closure parameters are filters, and from which config field do they come?
-				role := map[*ssa.Parameter]string{}
-				var provParam *ssa.Parameter
+				role := map[ssa.Value]string{}
+				var provParam ssa.Value
+				isProv := func(v ssa.Value) bool { return provParam != nil && sameOperand(v, provParam) }
 				for i, pr := range cl.Params {
 					if i >= len(g.Call.Args) {
+						continue
+					}
+					// the three values handed over as one struct value: its fields play the roles
+					if prov, filters, isB := stateBundle(pr.Type()); isB {
+						provParam = bundleOperand{pr, prov}
+						for _, fi := range filters {
+							for _, al := range bundleAllocs(g.Call.Args[i]) {
+								for _, st := range fieldStoresOf(al, fi) {
+									for _, s2 := range phiSources(st.Val) {
+										if _, idx, ok := extractOf(s2); ok {
+											if f, ok := src[idx]; ok {
+												role[bundleOperand{pr, fi}] = f
+											}
+										} else if f := filterFieldOf(s2); f != "" {
+											role[bundleOperand{pr, fi}] = f
+										}
+									}
+								}
+							}
+						}
 						continue
 					}
 					if isProviderSlice(pr.Type()) {
@@ -276,20 +375,14 @@ func ruleAdmit(p *Program, r *Result) {
 					if !ok || len(call.Common().Args) == 0 {
 						continue
 					}
-					a0 := call.Common().Args[0]
-					if u, ok := a0.(*ssa.UnOp); ok && u.Op == token.MUL {
-						a0 = u.X
-					}
-					if pr, ok := a0.(*ssa.Parameter); ok {
-						switch role[pr] {
-						case "PrefixDeny":
-							denyCall = call
-						case "PrefixAllow":
-							allowCall = call
-						}
+					switch roleOf(role, call.Common().Args[0]) {
+					case "PrefixDeny":
+						denyCall = call
+					case "PrefixAllow":
+						allowCall = call
 					}
 					for _, a := range call.Common().Args {
-						if a == ssa.Value(provParam) {
+						if isProv(a) {
 							scan = call
 						}
 					}
@@ -303,7 +396,7 @@ func ruleAdmit(p *Program, r *Result) {
 				for _, c := range allCalls(cl) {
 					uses := false
 					for _, a := range c.Common().Args {
-						if a == ssa.Value(provParam) {
+						if isProv(a) {
 							uses = true
 						}
 					}
@@ -332,15 +425,11 @@ func ruleAdmit(p *Program, r *Result) {
 						if !isCall || len(call2.Common().Args) == 0 {
 							continue
 						}
-						a0 := call2.Common().Args[0]
-						if u, ok := a0.(*ssa.UnOp); ok && u.Op == token.MUL {
-							a0 = u.X
-						}
-						if pr, ok := a0.(*ssa.Parameter); ok {
-							if role[pr] == "PrefixDeny" && call2.Common().StaticCallee() == denyCall.Common().StaticCallee() && behind(call2, 1) {
+						if ro := roleOf(role, call2.Common().Args[0]); ro != "" {
+							if ro == "PrefixDeny" && call2.Common().StaticCallee() == denyCall.Common().StaticCallee() && behind(call2, 1) {
 								okD = true
 							}
-							if role[pr] == "PrefixAllow" && call2.Common().StaticCallee() == allowCall.Common().StaticCallee() && behind(call2, 0) {
+							if ro == "PrefixAllow" && call2.Common().StaticCallee() == allowCall.Common().StaticCallee() && behind(call2, 0) {
 								okA = true
 							}
 						}
@@ -723,7 +812,6 @@ func ruleAcceptRefusal(p *Program, r *Result) {
 }
 
 var _ = sort.Strings
-
 
 // isAscendingIndex: v is the index of a loop that visits 0, 1, 2, ... in order: the induction variable of a
 // range loop (φ+1 with φ starting at -1) or of a counting loop (φ starting at a constant, stepped by +1).
